@@ -339,7 +339,8 @@ def run(rep, info, model, tier, seed):
         rep.count("records", "1-4" if len(sc["arrivals"]) <= 5 else ("5-50" if len(sc["arrivals"]) <= 51 else "51+"))
         res = oracle(sc, events, tr)
         if res:
-            rep.violation(res[0], scenario=dict(tls=sc["tls"], arrivals=[[t, len(b)] for t, b in sc["arrivals"]][:200]), family="C18:virtual-clock-bursts")
+            rep.violation(res[0], scenario=fam.jsonable_sc(dict(kind="virtual", tls=sc["tls"], busy_lock=sc.get("busy_lock", False), arrivals=[[t, b] for t, b in sc["arrivals"]],
+                                                              expected=[[t, e] for t, e in sc["_expected"]])), family="C18:virtual-clock-bursts")
         sc["_recv_log"] = tr.recv_log
         if len(rep.samples) < 3:
             rep.sample(dict(tls=sc["tls"], arrival_sizes=[[t, len(b)] for t, b in sc["arrivals"]][:12], recv_calls=tr.recv_log[:12]))
@@ -392,5 +393,27 @@ def run(rep, info, model, tier, seed):
 
 
 def replay(body):
-    print("re-run: /venv/bin/python /verif/check.py C18 quick (scenario shape in the replay file)")
+    sc = fam.unjson_sc(body["scenario"])
+    if sc.get("kind") == "virtual":
+        sc2 = dict(tls=sc["tls"], busy_lock=sc.get("busy_lock", False), arrivals=[(t, b) for t, b in sc["arrivals"]],
+                   _expected=[(t, e) for t, e in sc["expected"]])
+        events, tr = run_sim(sc2)
+        res = oracle(sc2, events, tr)
+        print("messages delivered: %d of %d" % (len([1 for _, e in events if e[0] in (6, 7, 8, 9)]), len(sc2["_expected"])))
+        print("REPLAY:", ("VIOLATION reproduced: %s" % res[0]) if res else "property holds on this input")
+        return 1 if res else 0
+    if sc.get("kind") == "real":
+        tmp = tempfile.mkdtemp(prefix="c18-", dir=core.BUILD)
+        try:
+            tlsfiles = _make_cert(tmp) if sc.get("tls") else None
+            cnt, dt, got_end = real_run(tlsfiles, sc["nsmall"], sc["big"], tmp, tail_split=bool(sc.get("tail_split")))
+        finally:
+            for f in os.listdir(tmp):
+                os.unlink(os.path.join(tmp, f))
+            os.rmdir(tmp)
+        bad = (not got_end) or cnt != sc["nsmall"] + 2 or dt > 6.0
+        print("delivered %d of %d messages in %.1f s" % (cnt, sc["nsmall"] + 2, dt))
+        print("REPLAY:", "VIOLATION reproduced" if bad else "property holds on this input")
+        return 1 if bad else 0
+    print("this replay file predates the complete scenario format: re-run /venv/bin/python /verif/check.py C18 quick")
     return 2
